@@ -92,7 +92,9 @@ func genImportConfig(r *rand.Rand, allowFail bool, allowDupPaths bool) icConfig 
 			specs = append(specs, icSpec{p, aliases[r.Intn(len(aliases))]})
 		}
 		if r.Intn(8) == 0 {
-			specs = append(specs, icSpec{"C", ""})
+			// "C" anywhere in a block, also first
+			at := r.Intn(len(specs) + 1)
+			specs = append(specs[:at], append([]icSpec{{"C", ""}}, specs[at:]...)...)
 		}
 		if len(specs) == 0 {
 			continue
